@@ -21,7 +21,8 @@ Record closed (R : coll -> coll -> Prop) (WA WS : value -> Prop) (AllowDel : Pro
   cl_trans : forall a b c, R a b -> R b c -> R a c;
   cl_now : forall c c', R c c' -> now c' = now c;
   cl_exp : forall c c', expire c = Ok c' -> R c c';
-  cl_meta : forall c n od, R c (mkColl (docs c) (idx c) (forced c) n (now c) od);
+  (* bookkeeping: the created flag, the ObjectId supply, the upsert marks *)
+  cl_meta : forall c fo n od, R c (mkColl (docs c) (idx c) fo n (now c) od);
   cl_app : forall c id data, WA data -> R c (with_docs c (docs c ++ [(id, data)]));
   cl_roll : forall c id data c3,
     WA data -> store_get id (docs c) = None ->
@@ -46,7 +47,7 @@ Lemma R_exp : forall c c', expire c = Ok c' -> R c c'.
 Proof. apply HC. Qed.
 Lemma R_now : forall c c', R c c' -> now c' = now c.
 Proof. apply HC. Qed.
-Lemma R_meta : forall c n od, R c (mkColl (docs c) (idx c) (forced c) n (now c) od).
+Lemma R_meta : forall c fo n od, R c (mkColl (docs c) (idx c) fo n (now c) od).
 Proof. apply HC. Qed.
 Lemma R_app : forall c id data, WA data -> R c (with_docs c (docs c ++ [(id, data)])).
 Proof. apply HC. Qed.
@@ -61,6 +62,29 @@ Lemma R_del : AllowDel -> forall c id od,
   R c (mkColl (store_del id (docs c)) (idx c) (forced c) (next_oid c) (now c) od).
 Proof. apply HC. Qed.
 Local Hint Resolve R_refl R_trans R_exp R_meta : core.
+
+(* the writing moves: the write also marks the collection as existing *)
+Definition mark (c : coll) : coll := mkColl (docs c) (idx c) true (next_oid c) (now c) (odocs c).
+Lemma R_mark c : R c (mark c).
+Proof. apply R_meta. Qed.
+Lemma R_app_w : forall c id data, WA data -> R c (with_docs_w c (docs c ++ [(id, data)])).
+Proof.
+  intros c id data Hw. eapply R_trans; [ apply (R_mark c) | ].
+  exact (R_app (mark c) id data Hw).
+Qed.
+Lemma R_roll_w : forall c id data c3,
+  WA data -> store_get id (docs c) = None ->
+  expire (with_docs_w c (docs c ++ [(id, data)])) = Ok c3 ->
+  R c (with_docs c3 (store_del id (docs c3))).
+Proof.
+  intros c id data c3 Hw Hg He. eapply R_trans; [ apply (R_mark c) | ].
+  exact (R_roll (mark c) id data c3 Hw Hg He).
+Qed.
+Lemma R_set_w : forall c k d, WS d -> R c (with_docs_w c (store_set k d (docs c))).
+Proof.
+  intros c k d Hw. eapply R_trans; [ apply (R_mark c) | ].
+  exact (R_set (mark c) k d Hw).
+Qed.
 
 (* at least one expiry happened on the way *)
 Definition E (c c' : coll) : Prop := exists c0 c1, R c c0 /\ expire c0 = Ok c1 /\ R c1 c'.
@@ -175,14 +199,14 @@ Proof.
   destruct (store_get id (docs c1)) eqn:Eg.
   { inv_pair H. split; [ apply E_R; assumption | intros _; assumption ]. }
   set (data := patch (VDoc fs1)) in *.
-  set (c2 := with_docs c1 (docs c1 ++ [(id, data)])) in H.
-  assert (H12 : R c1 c2) by (apply R_app; exact Hwa).
+  set (c2 := with_docs_w c1 (docs c1 ++ [(id, data)])) in H.
+  assert (H12 : R c1 c2) by (apply R_app_w; exact Hwa).
   destruct (ensure_uniques c2 data) as [touched|e] eqn:Eu.
   - destruct (expire_if touched c2) as [c3|e] eqn:E3; inv_pair H; fin_E.
     + eapply E_r; [ exact HE1 | eauto using expire_if_R ].
     + eapply E_r; eauto.
   - destruct (expire c2) as [c3|e'] eqn:E3; inv_pair H; fin_E.
-    + eapply E_r; [ exact HE1 | ]. eapply R_roll; eauto.
+    + eapply E_r; [ exact HE1 | ]. eapply R_roll_w; eauto.
     + exact HE1.
 Qed.
 
@@ -254,8 +278,8 @@ Proof.
       [ inv_pair H; apply R_refl | ].
     destruct (match d with VDoc fs => assoc "_id" fs | _ => None end);
       [ | inv_pair H; apply R_refl ].
-    set (c1 := with_docs c (store_set k d' (docs c))) in H.
-    assert (H1 : R c c1) by (apply R_set; apply HW).
+    set (c1 := with_docs_w c (store_set k d' (docs c))) in H.
+    assert (H1 : R c c1) by (apply R_set_w; apply HW).
     destruct (ensure_uniques c1 d') as [touched|e] eqn:Eu.
     + destruct (expire_if touched c1) as [c2|e] eqn:E2; [ | inv_pair H; assumption ].
       assert (H2 : R c c2) by eauto using expire_if_R.
@@ -290,8 +314,8 @@ Proof.
       [ inv_pair H; apply R_refl | ].
     destruct (match d with VDoc fs => assoc "_id" fs | _ => None end);
       [ | inv_pair H; apply R_refl ].
-    set (c1 := with_docs c (store_set k d' (docs c))) in H.
-    assert (H1 : R c c1) by (apply R_set; apply Himg; reflexivity).
+    set (c1 := with_docs_w c (store_set k d' (docs c))) in H.
+    assert (H1 : R c c1) by (apply R_set_w; apply Himg; reflexivity).
     destruct (ensure_uniques c1 d') as [touched|e] eqn:Eu.
     + destruct (expire_if touched c1) as [c2|e] eqn:E2; [ | inv_pair H; assumption ].
       assert (H2 : R c c2) by eauto using expire_if_R.
